@@ -772,6 +772,9 @@ pub struct Ledger {
     pub fee_claims: [BigUint; 2],
     /// Funding fee amounts charged to positions according to the reports (collateral token).
     pub funding_charged: [BigUint; 2],
+    /// Funding fee amounts actually collected from positions in the collateral token: the charged amount, or the
+    /// `paid_in_collateral_amount` of the insufficient-funding callback when one was reported for the step.
+    pub funding_collected: [BigUint; 2],
     pub insufficient_funding_events: u64,
 }
 
@@ -869,6 +872,10 @@ pub struct StepOutcome {
     pub pos: Option<usize>,
     /// Position before the step.
     pub pos_before: Option<SimPosition>,
+    /// Position as the successful action left it (before the harness resets a removed slot).
+    pub pos_after: Option<SimPosition>,
+    /// Funding fee amount collected in the collateral token by this step (see `Ledger::funding_collected`).
+    pub funding_collected: u128,
     /// LP the step acted on.
     pub lp: Option<usize>,
     /// Number of fallible storage calls the transaction made.
@@ -892,6 +899,9 @@ pub struct World {
     pub ledger: Ledger,
     /// `Fault{k}` waiting for the next operation.
     pub pending_fault: u32,
+    /// Harness model for C13: per position slot, the cumulative borrowing factor of its side that the market showed
+    /// at the end of the last successful increase / decrease of that slot (0 for an empty slot).
+    pub settled_borrowing_factor: Vec<u128>,
 }
 
 impl Clone for World {
@@ -904,6 +914,7 @@ impl Clone for World {
             prices: self.prices,
             ledger: self.ledger.clone(),
             pending_fault: 0,
+            settled_borrowing_factor: self.settled_borrowing_factor.clone(),
         }
     }
 }
@@ -920,6 +931,7 @@ impl World {
             prices: self.prices,
             ledger: Ledger::default(),
             pending_fault: 0,
+            settled_borrowing_factor: self.settled_borrowing_factor.clone(),
         }
     }
 }
@@ -996,6 +1008,7 @@ impl World {
             prices: to_prices(&cfg.init_prices),
             ledger: Ledger::default(),
             pending_fault: 0,
+            settled_borrowing_factor: vec![0; n],
             cfg,
         }
     }
@@ -1180,6 +1193,8 @@ impl World {
             insufficient_funding: vec![],
             pos: None,
             pos_before: None,
+            pos_after: None,
+            funding_collected: 0,
             lp: None,
             fallible_calls: 0,
             fault_planned: 0,
@@ -1351,6 +1366,11 @@ impl World {
                     out.flows.token_out = [cl, cs];
                     self.ledger.funding_charged[side(coll_long)] +=
                         BigUint::from(*rep.fees().funding_fees().amount());
+                    out.funding_collected = *rep.fees().funding_fees().amount();
+                    self.ledger.funding_collected[side(coll_long)] += BigUint::from(out.funding_collected);
+                    out.pos_after = Some(self.positions[idx]);
+                    let is_long = self.positions[idx].is_long;
+                    self.settled_borrowing_factor[idx] = self.market.st.pools[P_BORROWING_FACTOR].amount(is_long);
                     out.report = Report::Increase(Box::new(rep));
                 }
                 out
@@ -1425,11 +1445,22 @@ impl World {
                         *u.secondary_output_token_amount(),
                     );
                     lg.funding_charged[side(out_long)] += BigUint::from(*rep.fees().funding_fees().amount());
+                    out.funding_collected = if out.insufficient_funding.is_empty() {
+                        *rep.fees().funding_fees().amount()
+                    } else {
+                        out.insufficient_funding.iter().map(|e| e.paid_in_collateral_amount).sum()
+                    };
+                    lg.funding_collected[side(out_long)] += BigUint::from(out.funding_collected);
+                    out.pos_after = Some(self.positions[idx]);
                     lg.insufficient_funding_events += out.insufficient_funding.len() as u64;
                     out.flows = fl;
                     if rep.should_remove() {
                         let p = self.positions[idx];
                         self.positions[idx] = SimPosition::empty(p.is_long, p.is_collateral_token_long);
+                        self.settled_borrowing_factor[idx] = 0;
+                    } else {
+                        let is_long = self.positions[idx].is_long;
+                        self.settled_borrowing_factor[idx] = self.market.st.pools[P_BORROWING_FACTOR].amount(is_long);
                     }
                     out.report = Report::Decrease(rep);
                 }
